@@ -3,6 +3,7 @@ package mon
 import (
 	"fmt"
 	"math"
+	"strconv"
 	"strings"
 
 	"github.com/ChrisTrenkamp/xsel"
@@ -261,6 +262,28 @@ func c06Case(r *evid.Run, tier string, idx int, g *rng.R) {
 		}
 		w.env.Vars, w.env.Funcs = nil, nil
 	}
+	// values of a Result type defined by the embedding program: an operand is what its Number() says
+	for i := 0; i < 6; i++ {
+		f := rng.Pick(g, []float64{2.5e6, 1e21, 1.5e-7, math.Inf(1), math.Inf(-1), 12.5, -3, 0, math.NaN(), 4503599627370497})
+		rd := c06Reading{f: f, s: rng.Pick(g, []string{strconv.FormatFloat(f, 'g', -1, 64), fmt.Sprint(f) + " m", "n/a", "1,5"})}
+		binds := []xsel.ContextApply{xsel.WithVariable("g", rd), xsel.WithFunction("reading", func(xsel.Context, ...xsel.Result) (xsel.Result, error) { return rd, nil })}
+		gv := xast.Var{Local: "g"}
+		cases := []struct {
+			e    xast.Expr
+			want float64
+		}{
+			{xast.Binary{Op: "+", L: gv, R: xast.N(1)}, f + 1}, {xast.Binary{Op: "mod", L: gv, R: xast.N(7)}, math.Mod(f, 7)}, {xast.Binary{Op: "*", L: xast.Fn("reading"), R: xast.N(2)}, f * 2},
+			{xast.Neg{X: gv}, -f}, {xast.Fn("floor", gv), math.Floor(f)}, {xast.Binary{Op: "div", L: gv, R: xast.N(2)}, f / 2}, {xast.Fn("number", xast.Fn("reading")), f}, {xast.Binary{Op: "-", L: xast.N(1), R: gv}, 1 - f},
+		}
+		for _, c := range cases {
+			got, _, err := w.libEval(d.Root, xast.String(c.e), binds...)
+			r.Eval(1)
+			r.Tab("operator", "caller-defined-result:"+opOf(c.e), 1)
+			if fv, ok := got.(float64); err != nil || !ok || !refeval.SameNumber(fv, c.want, false) {
+				viol("caller-result/"+opOf(c.e), fmt.Sprintf("%s with a caller-defined Result whose Number() is %s and String() is %q = %s (%v), expected %s", xast.String(c.e), showDouble(f), rd.s, bridge.Show(got), errStr(err), showDouble(c.want)))
+			}
+		}
+	}
 	// sum / count over node-sets
 	for i := 0; i < 12; i++ {
 		var cond xast.Expr = xast.Fn("false")
@@ -326,3 +349,13 @@ func selectedValues(vnodes []*adoc.Node, cond xast.Expr) []string {
 	}
 	return out
 }
+
+// c06Reading is a Result type of the embedding program (a measurement with its own rendering).
+type c06Reading struct {
+	f float64
+	s string
+}
+
+func (r c06Reading) String() string  { return r.s }
+func (r c06Reading) Number() float64 { return r.f }
+func (r c06Reading) Bool() bool      { return r.f != 0 }
